@@ -628,11 +628,16 @@ def build_templates_unit(cfg, n, outdir):
                                   [('EntityAny', None, False), ('EntityDirectAny', None, False), ('Component', 'comp_x', False)], 'decide_iter_any', log)
     harness.append('fn tmpl_iter_any(world: &mut WorldS, tr_a: &mut Ghost<Seq<Visit>>, tr_b: &mut Ghost<Seq<Visit>>)\n{\n'
                    + '\n'.join(blocks) + '\n}\n')
-    # ecs_iter_borrow! (FetchMode::Borrow) with shared parameters only (RefMut accessors are outside the abstraction)
+    # ecs_iter_borrow! (FetchMode::Borrow) with shared parameters
     blocks = tmpl.template_blocks(raw, 'generate_query_iter', 'iter_bind_borrow', TMPL_ARCHS,
                                   [('EntityWild', None, False), ('EntityDirectWild', None, False), ('Component', 'CompX', False)],
                                   'decide_iter_borrow', log, mode='Borrow')
     harness.append('fn tmpl_iter_borrow(world: &WorldS, tr_a: &mut Ghost<Seq<Visit>>, tr_b: &mut Ghost<Seq<Visit>>)\n{\n'
+                   + '\n'.join(blocks) + '\n}\n')
+    blocks = tmpl.template_blocks(raw, 'generate_query_iter', 'iter_bind_borrow', TMPL_ARCHS,
+                                  [('EntityWild', None, False), ('EntityDirectWild', None, False), ('Component', 'CompX', True)],
+                                  'decide_iter_borrow_mut', log, mode='Borrow')
+    harness.append('fn tmpl_iter_borrow_mut(world: &WorldS, tr_a: &mut Ghost<Seq<Visit>>, tr_b: &mut Ghost<Seq<Visit>>)\n{\n'
                    + '\n'.join(blocks) + '\n}\n')
     # ecs_find! (FetchMode::Mut) with a dynamically typed key, shared and direct
     from . import worldgen
@@ -646,6 +651,12 @@ def build_templates_unit(cfg, n, outdir):
                               'decide_find_borrow', 'key', log, mode='Borrow')
     body = worldgen.rule_optmap_all(body, log)
     harness.append('fn tmpl_find_borrow_any(world: &WorldS, key: EntityAny) -> Option<u8>\n{\n' + body + '\n}\n')
+    # ecs_find_borrow! with a mutable component parameter: the RefMut guard of the entity's own cell
+    body = tmpl.find_template(raw, worldgen.SCHEMA.name, TMPL_ARCHS,
+                              [('EntityWild', None, False), ('EntityDirectWild', None, False), ('Component', 'CompX', True)],
+                              'decide_find_borrow_mut', 'key', log, mode='Borrow')
+    body = worldgen.rule_optmap_all(body, log)
+    harness.append('fn tmpl_find_borrow_mut_any(world: &WorldS, key: EntityAny) -> Option<u8>\n{\n' + body + '\n}\n')
     htext = '\n'.join(harness)
     from .extract import rule_panic
     htext = rule_panic(htext, 'macros/src/generate/query.rs', table, log)
